@@ -152,6 +152,14 @@ impl Prop for C19 {
                         let m2 = SeqModel::new(s2.clone());
                         for how in How::PATHS {
                             let t2 = AnyVal::Seq(build_tree(sc.kind, sc.ty, how, &s2, Some(sc.tie_seed)), m2.clone());
+                            if how == How::New {
+                                // clone_from onto a value holding another sequence
+                                if let Some(cf) = vals[0].1.clone_from_into(&t2) {
+                                    ensure!(cf.eq_val(&vals[0].1), "{who}: after donor.clone_from(&x) (donor built from a different sequence of {} elements) donor != x", s2.len());
+                                    ensure!(digest(&cf, ctx)? == vals[0].2, "{who}: after donor.clone_from(&x) the donor answers the query plan differently from x");
+                                    ctx.label("clone_from");
+                                }
+                            }
                             for (h1, v1, _) in &vals {
                                 ensure!(!v1.eq_val(&t2) && !t2.eq_val(v1), "{who}: tree of S (built {:?}) == tree of a different sequence S' (built {:?}); n = {}, edit = {:?}", h1, how, s.len(), c.neighbour);
                             }
@@ -212,6 +220,13 @@ impl Prop for C19 {
                         differs = true;
                         for p in [(BvHow::Bools, WrapHow::New), (BvHow::Pushes, WrapHow::From)] {
                             let v2 = AnyVal::Bits(BitsVal::build(bc.kind, p.0, p.1, &b2), BitModel::new(b2.clone()));
+                            if p.1 == WrapHow::New {
+                                if let Some(cf) = vals[0].1.clone_from_into(&v2) {
+                                    ensure!(cf.eq_val(&vals[0].1), "{who}: after donor.clone_from(&x) (donor built from {} different bits) donor != x", b2.len());
+                                    ensure!(digest(&cf, ctx)? == vals[0].2, "{who}: after donor.clone_from(&x) the donor answers the query plan differently from x");
+                                    ctx.label("clone_from");
+                                }
+                            }
                             for (p1, v1, _) in &vals {
                                 ensure!(!v1.eq_val(&v2), "{who}: value of B (built {:?}) == value of different bits B' (built {:?}); n = {}, edit = {:?}", p1, p, bits.len(), c.neighbour);
                             }
@@ -248,6 +263,13 @@ impl Prop for C19 {
                         differs = true;
                         for p in [QuadHow::FromQVector(IntTy::U8), QuadHow::Collect(IntTy::I32)] {
                             let v2 = AnyVal::Quad(QuadVal::build(qc.kind, p, &q2, 0), QuadModel::new(q2.clone()));
+                            if p == QuadHow::FromQVector(IntTy::U8) {
+                                if let Some(cf) = vals[0].1.clone_from_into(&v2) {
+                                    ensure!(cf.eq_val(&vals[0].1), "{who}: after donor.clone_from(&x) (donor built from {} different symbols) donor != x", q2.len());
+                                    ensure!(digest(&cf, ctx)? == vals[0].2, "{who}: after donor.clone_from(&x) the donor answers the query plan differently from x");
+                                    ctx.label("clone_from");
+                                }
+                            }
                             for (p1, v1, _) in &vals {
                                 ensure!(!v1.eq_val(&v2), "{who}: value of Q (built {:?}) == value of a different sequence Q' (built {:?}); n = {}, edit = {:?}", p1, p, q.len(), c.neighbour);
                             }
